@@ -112,9 +112,43 @@ def importer_consistency(tier, seed):
     return fails, n_eval
 
 
+def length_changing_consistency(tier, seed):
+    """functions that BUILD a new coordinate array for the axis they act on (both Fourier transforms, interp, left_shift,
+    fit curves): the new array must be as long as the new axis for every length and every spacing, including spacings
+    that are not exact doubles (0.1 s, 1 ms, 25 us), where a step-accumulating construction gains or loses a point"""
+    import numpy as np, warnings
+    from common import dnp, consistent
+    fails, n_eval = [], 0
+    lens = list(range(2, 70)) + ([98, 103, 107, 127, 128, 129] if tier == "quick" else list(range(70, 260)))
+    for dt in (0.1, 1e-3, 1.0, 2.5e-5, 1.0 / 3.0, 0.25):
+        for n in lens:
+            for zff in ((1,) if n > 70 else (1, 2)):
+                x = np.arange(n) * dt
+                d0 = dnp.DNPData(np.exp(-x / (dt * n))[:, None] * np.array([[1.0, 2.0]]), ["t2", "b"], [x, np.arange(2.0)])
+                for name, fn in (("fourier_transform", lambda d: dnp.fourier_transform(d, "t2", zero_fill_factor=zff)),
+                                 ("inverse_fourier_transform", lambda d: dnp.inverse_fourier_transform(
+                                     dnp.DNPData(d.values, ["f2", "b"], [d.coords["t2"], d.coords["b"]]), "f2", zero_fill_factor=zff)),
+                                 ("interp", lambda d: dnp.interp(d, "t2", np.linspace(x[0], x[-1], 2 * n - 1))),
+                                 ("left_shift", lambda d: dnp.left_shift(d, "t2", n // 3))):
+                    n_eval += 1
+                    with warnings.catch_warnings():
+                        warnings.simplefilter("ignore")
+                        try:
+                            r = fn(d0)
+                        except Exception:  # noqa: BLE001  (raising is not an inconsistent object)
+                            continue
+                    if not consistent(r):
+                        key = "C01:inconsistent:%s:new-axis-length" % name
+                        fails.append({"key": key, "clause": key, "ops": [{"function": name, "n": n, "dt": dt, "zero_fill_factor": zff}]})
+    return fails, n_eval
+
+
 def run(tier, seed, escalate=False):
     res = P.run(tier, seed, escalate)
     fails, n_eval = importer_consistency("thorough" if escalate else tier, seed)
+    f2, n2 = length_changing_consistency("thorough" if escalate else tier, seed)
+    fails += f2; n_eval += n2
+    res["distribution"]["axis_length_cases"] = n2
     seen = {f["key"] for f in res["impl_failures"]}
     for f in fails:
         if f["key"] not in seen:
